@@ -33,6 +33,8 @@ type ScalarCase struct {
 	CallFns []string `json:"callfns,omitempty"`
 	// tag carrier: rule text of an earlier call on the same struct type that overrides the field's rule
 	Decoy string `json:"decoy,omitempty"`
+	// the argument is handed over through a pointer (*T for Var, *map / *[]map for Map, *string for Url, **struct for Struct)
+	ViaPtr bool `json:"viaptr,omitempty"`
 	noDup bool
 }
 
@@ -121,7 +123,7 @@ func (c *ScalarCase) prepare() func() error {
 	rules := c.rules()
 	switch c.Carrier {
 	case "var":
-		src := v.Interface()
+		src := c.viaPtr(v)
 		rs := append([]string(nil), c.Rules...)
 		if len(c.CallFns) > 0 {
 			fns := append([]string(nil), c.CallFns...)
@@ -138,7 +140,7 @@ func (c *ScalarCase) prepare() func() error {
 		st := desc.T{K: "struct", Fields: []desc.F{{Name: "K", T: c.T, Tags: map[string]string{"valid": rules}}}}
 		sv := reflect.New(desc.Type(st))
 		sv.Elem().Field(0).Set(v)
-		src := sv.Interface()
+		src := c.viaPtr(sv)
 		if len(c.CallFns) > 0 {
 			fns := append([]string(nil), c.CallFns...)
 			return func() error {
@@ -164,7 +166,7 @@ func (c *ScalarCase) prepare() func() error {
 		st := desc.T{K: "struct", Fields: []desc.F{{Name: "K", T: c.T}}}
 		sv := reflect.New(desc.Type(st))
 		sv.Elem().Field(0).Set(v)
-		src := sv.Interface()
+		src := c.viaPtr(sv)
 		rs := append([]string(nil), c.Rules...)
 		if len(c.CallFns) > 0 {
 			fns := append([]string(nil), c.CallFns...)
@@ -191,7 +193,7 @@ func (c *ScalarCase) prepare() func() error {
 				m.SetMapIndex(reflect.ValueOf(o[0]), reflect.ValueOf(o[1]))
 			}
 		}
-		var src interface{} = m.Interface()
+		src := c.viaPtr(m)
 		if c.Carrier == "listmap" && len(c.ListMissing) > 0 {
 			l := reflect.MakeSlice(reflect.SliceOf(m.Type()), len(c.ListMissing), len(c.ListMissing))
 			for i, miss := range c.ListMissing {
@@ -201,12 +203,12 @@ func (c *ScalarCase) prepare() func() error {
 				}
 				l.Index(i).Set(mi)
 			}
-			src = l.Interface()
+			src = c.viaPtr(l)
 		} else if c.Carrier == "listmap" {
 			l := reflect.MakeSlice(reflect.SliceOf(m.Type()), 2, 2)
 			l.Index(0).Set(m)
 			l.Index(1).Set(m)
-			src = l.Interface()
+			src = c.viaPtr(l)
 		}
 		if len(c.CallFns) > 0 {
 			fns := append([]string(nil), c.CallFns...)
@@ -239,6 +241,10 @@ func (c *ScalarCase) prepare() func() error {
 		if c.Carrier == "urlenc" {
 			u = url.QueryEscape(u)
 		}
+		var usrc interface{} = u
+		if c.ViaPtr {
+			usrc = &u
+		}
 		if len(c.CallFns) > 0 {
 			fns := append([]string(nil), c.CallFns...)
 			return func() error {
@@ -246,12 +252,22 @@ func (c *ScalarCase) prepare() func() error {
 				for _, n := range fns {
 					vu.SetValidFn(n, perCallFn(n))
 				}
-				return vu.Valid(u)
+				return vu.Valid(usrc)
 			}
 		}
-		return func() error { return valid.Url(u, valid.RM{scalarKey: rules}) }
+		return func() error { return valid.Url(usrc, valid.RM{scalarKey: rules}) }
 	}
 	panic("bad carrier " + c.Carrier)
+}
+
+// viaPtr returns the value as interface{}, behind one more pointer if the case says so.
+func (c *ScalarCase) viaPtr(v reflect.Value) interface{} {
+	if !c.ViaPtr {
+		return v.Interface()
+	}
+	p := reflect.New(v.Type())
+	p.Elem().Set(v)
+	return p.Interface()
 }
 
 // run presents the value through the carrier and returns the error text.
